@@ -120,11 +120,45 @@ func classifyCounterStores(p *Prog, e *Effects, cf counterField) []counterStore 
 						}
 					}
 				}
+				if cs.form == "?" && recomputedFromOtherFields(v, fa) {
+					cs.form = "recompute" // written out in place: arithmetic over the receiver's other fields only
+				}
 				out = append(out, cs)
 			}
 		}
 	}
 	return out
+}
+
+// recomputedFromOtherFields: v is arithmetic (+ - * / %) over constants and loads of fields of the same object other than the
+// counter itself, with at least one such load.
+func recomputedFromOtherFields(v ssa.Value, counter *ssa.FieldAddr) bool {
+	n := 0
+	var ok func(v ssa.Value, depth int) bool
+	ok = func(v ssa.Value, depth int) bool {
+		if depth > 6 {
+			return false
+		}
+		v = stripChange(v)
+		switch x := v.(type) {
+		case *ssa.Const:
+			return true
+		case *ssa.BinOp:
+			switch x.Op {
+			case token.ADD, token.SUB, token.MUL, token.QUO, token.REM:
+				return ok(x.X, depth+1) && ok(x.Y, depth+1)
+			}
+		case *ssa.UnOp:
+			if x.Op == token.MUL {
+				if fa, isFA := stripChange(x.X).(*ssa.FieldAddr); isFA && stripChange(fa.X) == stripChange(counter.X) && fa.Field != counter.Field {
+					n++
+					return true
+				}
+			}
+		}
+		return false
+	}
+	return ok(v, 0) && n > 0
 }
 
 // successGuard: a recognised "the element exists" condition guarding a decrement.
@@ -488,6 +522,9 @@ func incrementPaired(c *Ctx, cs counterStore, gc *GCNF, g *GC) (bool, string) {
 	if gcHasAllocLink(g) {
 		return true, "+1 on a path that allocates and links a new element"
 	}
+	if allPathsAllocLink(gc)[g.From] {
+		return true, "+1 after a loop that every path enters only after allocating and linking a new element"
+	}
 	// guarded by the callee's boolean result (frozen exception: btree.Put ← insert)
 	for _, a := range g.Guards {
 		if a.Op == "res" && len(a.Args) == 1 && a.Args[0].Op == "do" && strings.HasSuffix(a.Args[0].Leaf, ".insert") {
@@ -519,6 +556,33 @@ func incrementPaired(c *Ctx, cs counterStore, gc *GCNF, g *GC) (bool, string) {
 		}
 	}
 	return false, "the counter is incremented on a path that links no new element"
+}
+
+// allPathsAllocLink: for every cut point, whether every path from the function entry to it has allocated and linked a new
+// element (greatest fixpoint over the guarded commands that lead to the cut).
+func allPathsAllocLink(gc *GCNF) map[int]bool {
+	A := map[int]bool{}
+	for _, g := range gc.GCs {
+		A[g.From] = true
+		if g.Exit.Op == "goto" {
+			A[atoiOr(g.Exit.Leaf, 0)] = true
+		}
+	}
+	A[0] = false
+	for changed := true; changed; {
+		changed = false
+		for _, g := range gc.GCs {
+			if g.Exit.Op != "goto" {
+				continue
+			}
+			k := atoiOr(g.Exit.Leaf, 0)
+			if A[k] && !(gcHasAllocLink(g) || A[g.From]) {
+				A[k] = false
+				changed = true
+			}
+		}
+	}
+	return A
 }
 
 // ---- R12f ----
@@ -1058,6 +1122,17 @@ func startOfTerm(gc *GCNF, t *Term, depth int) (string, bool) {
 		if t.Op == "std" && (t.Leaf == "strings.TrimRight" || t.Leaf == "strings.TrimSuffix" || t.Leaf == "strings.TrimRightFunc") && len(t.Args) >= 2 {
 			t = t.Args[1]
 			continue
+		}
+		if t.Op == "std" && t.Leaf == "fmt.Sprintf" && len(t.Args) >= 2 {
+			// the literal text of a constant format up to its first verb
+			if f, ok := strConst(t.Args[1]); ok {
+				if i := strings.IndexByte(f, '%'); i > 0 {
+					return f[:i], true
+				} else if i < 0 {
+					return f, true
+				}
+			}
+			return "", false
 		}
 		break
 	}
